@@ -97,5 +97,9 @@ class NotificationManager(Runnable):
 
     def stop(self, forever=True, wait=True):
         """Stop the server"""
+        # flags first, sentinel second: if the service thread dequeued the sentinel before the flags were set it
+        # would stop itself non-finally, exit, and a final stop would never run done()
+        super().stop(forever=forever, wait=False)
         self.__queue.put(None)
-        super().stop(forever=forever, wait=wait)
+        if wait:
+            self.wait()
